@@ -322,7 +322,34 @@ def run(chk: common.Check) -> None:
                 got = [x async for x in to_aiter(iter(l), thread=thread)]
                 if len(got) != len(l) or any(a is not b and a != b for a, b in zip(got, l)):
                     ta_msgs.append(f'to_aiter(thread={thread}) over {l!r} yielded {got!r}')
+    async def ta_reuse() -> None:
+        # the wrapper is an iterator: once exhausted it stays exhausted; consumers sharing it split the items, nobody gets one twice
+        from nextline.utils.aio import to_aiter
+        for l in ([1, 2, 3], list(range(12)), []):
+            for thread in (False, True):
+                it = to_aiter(l, thread=thread)
+                first = [x async for x in it]
+                again = [x async for x in it]
+                extra = []
+                for _ in range(2):
+                    try:
+                        extra.append(await it.__anext__())
+                    except StopAsyncIteration:
+                        pass
+                if first != l or again or extra:
+                    ta_msgs.append(f'to_aiter(thread={thread}) over {l!r}: first pass {first!r}, second pass {again!r}, __anext__ after the end {extra!r}')
+                shared = to_aiter(l, thread=thread)
+                got: list = []
+
+                async def worker() -> None:
+                    async for x in shared:
+                        got.append(x)
+                        await asyncio.sleep(0)
+                await asyncio.gather(worker(), worker(), worker())
+                if sorted(got) != sorted(l):
+                    ta_msgs.append(f'three consumers sharing one to_aiter(thread={thread}) over {l!r} received {sorted(got)!r}')
     asyncio.new_event_loop().run_until_complete(ta_main())
+    asyncio.new_event_loop().run_until_complete(ta_reuse())
     model_out = None
     model_err = None
     all_lines = [ln for (_, lines, _, _) in rows for ln in lines] + [f"toaiter {','.join(map(str, l)) if l else '-'}" for l in ta]
